@@ -371,6 +371,12 @@ def match_known(known, prop, obligation, res):
             continue
         if not re.fullmatch(f["obligation"], obligation):
             continue
+        wc = f.get("witness_class")
+        if wc:
+            # the finding covers only witnesses of the recorded class; anything else is a new violation
+            rec = res if isinstance(res, dict) else {}
+            if not all(rec.get(k) == v for k, v in wc.items()):
+                continue
         return f
     return None
 
